@@ -678,14 +678,14 @@ func init() {
 	register("E18", func(tier string, seed uint64) []Case {
 		var cases []Case
 		pk := []string{"pod", "service", "secret", "node", "event", "replicationcontroller", "ingress", "job", "daemonset", "deployment", "replicaset", "statefulset"}
-		n := tierPick(tier, 2, 40)
+		n := tierPick(tier, 2, 120)
 		for _, p := range pk {
 			for i := 0; i < n; i++ {
 				cases = append(cases, e18DiffCase(p, seed, i, "none"))
 			}
 			cases = append(cases, e18DiffCase(p, seed, 0, "watch"), e18DiffCase(p, seed, 0, "list"))
 			if tier == "thorough" {
-				for i := 1; i < 8; i++ {
+				for i := 1; i < 24; i++ {
 					cases = append(cases, e18DiffCase(p, seed, i, "watch"), e18DiffCase(p, seed, i, "list"))
 				}
 			}
